@@ -451,10 +451,37 @@ func (r *trRun) oneOnOne() {
 				for _, t := range topics {
 					distinct[t] = true
 				}
+				// both ends hold a subscription to one and the same topic: each is there for the other to see (Connect polls
+				// once a second); a Connect that still has not returned 6 s later waits for its peer somewhere else
+				onTopic := map[string]map[*sNode]bool{}
+				net.mu.Lock()
+				for t, subs := range net.subs {
+					for _, sb := range subs {
+						if onTopic[t] == nil {
+							onTopic[t] = map[*sNode]bool{}
+						}
+						onTopic[t][sb.node] = true
+					}
+				}
+				net.mu.Unlock()
+				bothThere := false
+				for _, ns := range onTopic {
+					bothThere = bothThere || (ns[a] && ns[b])
+				}
+				stillWaiting := false
+				if len(distinct) <= 1 && bothThere {
+					select {
+					case <-errs:
+					case <-time.After(6 * time.Second):
+						stillWaiting = true
+					}
+				}
 				if len(distinct) > 1 {
 					r.violate(k, "channel-name", "the two ends of a pairwise channel derived different channel names (Connect never returns)", nil, topics)
+				} else if stillWaiting {
+					r.violate(k, "channel-name", "both ends of a pairwise channel are subscribed to one topic and see each other there, yet a Connect call does not return: it waits for its peer under another name", nil, topics)
 				} else {
-					r.res.Inconclusive = append(r.res.Inconclusive, "oneonone connect: no return within 20 s")
+					r.res.Inconclusive = append(r.res.Inconclusive, fmt.Sprintf("oneonone connect: no return within 20 s (topics subscribed: %v)", topics))
 				}
 				close1()
 				close2()
@@ -543,8 +570,25 @@ func (r *trRun) oneOnOne() {
 		// a third store of A's instance has the same peer join (its Connect finds the channel there); the two stores that
 		// connected first are closed: the instance is not, and the third store still relies on the channel
 		store3, close3 := context.WithCancel(ctx)
-		if err := chans[a].Connect(store3, b.id); err != nil {
-			r.res.Inconclusive = append(r.res.Inconclusive, "oneonone connect: "+err.Error())
+		// (bounded: the store's context is ended after 20 s only if Connect has not returned by then)
+		ctxS3, cancelS3 := context.WithCancel(store3)
+		bound := time.AfterFunc(20*time.Second, cancelS3)
+		err3 := chans[a].Connect(ctxS3, b.id)
+		bound.Stop()
+		if err3 != nil {
+			// the channel to this peer exists: a Connect that waits can only be waiting on another name
+			net.mu.Lock()
+			now := append([]string{}, net.topics...)
+			net.mu.Unlock()
+			distinct := map[string]bool{}
+			for _, t := range now {
+				distinct[t] = true
+			}
+			// (the first Connect calls returned: both ends have been on the topic, seeing each other, ever since)
+			r.violate(k, "channel-name", "a later Connect to a peer whose channel exists does not return within 20 s: it waits for the peer under another name than the one both ends are subscribed to", topics[0], now)
+			close1()
+			close2()
+			close3()
 			return
 		}
 		close1()
@@ -599,8 +643,34 @@ func (r *trRun) oneOnOne() {
 			}
 			net.mu.Unlock()
 			allSubscribed := len(perNode[a]) >= 2 && len(perNode[b]) >= 2 && len(perNode[c]) >= 2
-			if allSubscribed && len(distinct) != 3 {
-				r.violate(k, "channel-name", fmt.Sprintf("three peers connected pairwise subscribe to %d distinct channel names instead of 3: some pair does not derive the same name at both ends", len(distinct)), 3, all)
+			unshared := ""
+			for _, pr := range [][2]*sNode{{a, b}, {a, c}, {b, c}} {
+				common := false
+				for t := range perNode[pr[0]] {
+					common = common || perNode[pr[1]][t]
+				}
+				if !common {
+					unshared = pr[0].id.String() + " / " + pr[1].id.String()
+				}
+			}
+			if unshared == "" {
+				// every pair is on a common topic by now: a Connect made again returns at once, unless it waits elsewhere
+				again := make(chan error, len(pairs))
+				ctx4, cancel4 := context.WithTimeout(ctx, 8*time.Second)
+				for _, pr := range pairs {
+					pr := pr
+					go func() { again <- chans[pr[0]].Connect(ctx4, pr[1].id) }()
+				}
+				for range pairs {
+					if err := <-again; err != nil {
+						unshared = "a Connect made again, with both ends on a common topic, does not return within 8 s"
+					}
+				}
+				cancel4()
+				allSubscribed = unshared != ""
+			}
+			if allSubscribed && unshared != "" {
+				r.violate(k, "channel-name", "three peers connected pairwise: every peer has subscribed to two channels, yet the two ends of a pair ("+unshared+") share none: they do not derive the same name", 3, all)
 			} else {
 				r.res.Inconclusive = append(r.res.Inconclusive, "oneonone connect (three peers): no return within 20 s")
 			}
